@@ -11,3 +11,7 @@
 ; return from a catch block with finally; break from a catch block with finally
 (prog (globals 0) (classes) (defs (fn 0 1 (seq (try (seq (emit 1) (throw (lit s0))) (catches (c any 0 (seq (emit 2) (ret (lit i1))))) (fin (emit 3))) (lit i2)))) (main 0 (seq (call 0) (emit 4))))
 (prog (globals 0) (classes) (defs) (main 2 (seq (forl 0 (mklist (lit i0) (lit i1)) (try (seq (emit 1) (throw (lit null))) (catches (c any 1 (seq (emit 2) (brk)))) (fin (emit 3)))) (emit 4))))
+; wStale (former F-C04-5 witness): break out of a try block, later uncaught error — no stale handler since 0e9e81b
+(prog (globals 0) (classes) (defs) (main 2 (seq (forl 0 (mklist (lit i0) (lit i1)) (try (seq (emit 1) (brk)) (catches (c any 1 (emit 2))))) (emit 3) (throw (lit s0)) (emit 4))))
+; continue out of two nested try blocks, then an error caught by the enclosing try only
+(prog (globals 0) (classes) (defs) (main 2 (seq (try (seq (forl 0 (mklist (lit i0) (lit i1)) (try (try (seq (emit 1) (cont)) (catches (c any 1 (emit 2)))) (catches (c any 1 (emit 3))))) (emit 4) (throw (lit s0))) (catches (c any 1 (emit 5)))) (emit 6))))
